@@ -95,6 +95,26 @@ def isFloatT : GoType → Bool
   | .f32 | .f64 => true
   | _ => false
 
+/-- what the callback of a library value returns (go/harness types.go, ops_enc.go): an opaque leaf of the machine as of
+    the specification (`Enc.encV` has the same texts) -/
+def callbackText : String → GoVal → Option Bytes
+  | "MV", .st [.int n] => some (ascii "{\"mv\":" ++ intDec n ++ [125])
+  | "MP", .st [.int n] => some (ascii "{\"mp\":" ++ intDec n ++ [125])
+  | "TV", .st [.int n] => some (ascii "tv" ++ intDec n)
+  | "TP", .st [.int n] => some (ascii "tp" ++ intDec n)
+  | "LJ", .lib m => some m
+  | "LJP", .lib m => some m
+  | "LT", .lib t => some t
+  | _, _ => none
+
+/-- the value the method is called on: the instruction's type operand is the named type (the cursor holds the value) or
+    a pointer to it (OP_marshal / OP_marshal_text on `*n`: the cursor holds the pointer, vm.go:243 `convT2I(p, true, ..)`;
+    OP_marshal_p / OP_marshal_text_p: the cursor IS the pointer, vm.go:253) -/
+def callbackArg (ptrOp : Bool) : GoType → GoVal → Option (String × GoVal)
+  | .lib n, v => some (n, v)
+  | .ptr (.lib n), v => if ptrOp then some (n, v) else match v with | .ptr w => some (n, w) | _ => none
+  | _, _ => none
+
 inductive StepRes where
   | next (pc : Nat) (r : Regs) (s : Stack) (b : Bytes)
   | err (e : XErr)
@@ -264,7 +284,28 @@ def step (o : EncOpts) (ins : Instr) (pc : Nat) (r : Regs) (s : Stack) (b : Byte
     | _ => .err .stuck
   | .emptyArr => .next (pc + 1) r s (b ++ render (nilSlice o))               -- :315
   | .emptyObj => .next (pc + 1) r s (b ++ render (nilMap o))                 -- :321
-  | .marshal _ | .marshalP _ | .marshalText _ | .marshalTextP _ => .err .stuck   -- callbacks: outside the model
+  | .marshal T | .marshalP T =>                                               -- :327 / :345 prim.EncodeJsonMarshaler
+    match r.p.get with
+    | some v =>
+      (match callbackArg (match ins with | .marshalP _ => true | _ => false) T v with
+      | some (n, w) => (match callbackText n w with
+        | some m => (match marshalerOut o m with
+          | .ok j => .next (pc + 1) r s (b ++ render j)
+          | .error e => .err (.enc e))
+        | none => .err .stuck)
+      | none => .err .stuck)
+    | none => .err .stuck
+  | .marshalText T | .marshalTextP T =>                                       -- :233 / :251 prim.EncodeTextMarshaler
+    match r.p.get with
+    | some v =>
+      (match callbackArg (match ins with | .marshalTextP _ => true | _ => false) T v with
+      | some (n, w) => (match callbackText n w with
+        | some m => (match textOut o m with
+          | .ok j => .next (pc + 1) r s (b ++ render j)
+          | .error e => .err (.enc e))
+        | none => .err .stuck)
+      | none => .err .stuck)
+    | none => .err .stuck
   | .unsupported _ => .err (.enc .unsupportedType)                            -- :351
 
 /-- vm.go:51 `Execute` with `fuel` iterations of its loop; `fpv` = the pointer-value bit of `flags` -/
